@@ -688,7 +688,7 @@ func ruleV1(c *Ctx) *RuleResult {
 				if g == fn || g.Signature.Recv() == nil || namedOf(g.Signature.Recv().Type()) != rn {
 					continue
 				}
-				cg := ifsOn(g, zt)
+				cg := ifsOnV(g, zt)
 				if len(cg) == 0 {
 					continue
 				}
